@@ -2341,7 +2341,7 @@ theorem walk_linkfree {fs : FS} {f : String} {h : H5File} (hg : getFile fs f = s
           (if fmtOK a then [Item.path (P ++ [x])] else []) ++ walk fs v n f (P ++ [x]) (P ++ [x])
         | some (.soft t) =>
           match resolve fs f t with
-          | none => if loops fs f t then [.fuel] else []
+          | none => []
           | some (g, Q) =>
             match lookupE fs g Q with
             | some (.group _ a) =>
@@ -2350,7 +2350,7 @@ theorem walk_linkfree {fs : FS} {f : String} {h : H5File} (hg : getFile fs f = s
         | some (.ext g0 t) =>
           if g0 = f then [.fuel] else
           match resolve fs g0 t with
-          | none => if loops fs g0 t then [.fuel] else []
+          | none => []
           | some (g, Q) =>
             let d := linkName fs v g0 t (P ++ [x])
             match lookupE fs g Q with
@@ -3964,8 +3964,7 @@ theorem walk_soft_sound (p : Path) :
           cases hr : resolve fs g t with
           | none =>
             rw [hr] at hx
-            simp only at hx
-            split at hx <;> simp at hx
+            simp at hx
           | some l1 =>
             obtain ⟨g', Q⟩ := l1
             rw [hr] at hx
@@ -4030,7 +4029,7 @@ theorem walk_soft_complete :
               (if fmtOK a then [Item.path (disp ++ [x])] else []) ++ walk fs Variant.spec n g (P ++ [x]) (disp ++ [x])
             | some (.soft t) =>
               match resolve fs g t with
-              | none => if loops fs g t then [.fuel] else []
+              | none => []
               | some (g', Q) =>
                 match lookupE fs g' Q with
                 | some (.group _ a) =>
@@ -4039,7 +4038,7 @@ theorem walk_soft_complete :
             | some (.ext g0 t) =>
               if g0 = g then [.fuel] else
               match resolve fs g0 t with
-              | none => if loops fs g0 t then [.fuel] else []
+              | none => []
               | some (g', Q) =>
                 let d := linkName fs Variant.spec g0 t (disp ++ [x])
                 match lookupE fs g' Q with
